@@ -80,6 +80,17 @@ Definition exp_oracle (input call : json) : option string :=
       | _, _, _ => Some "exp missing or not an integer" end
   end.
 
+(* C13 / C14: with .decoy(max), max >= 1, EVERY SD-JWT the issuer object produces - the first and every later one -
+   carries between 1 and max decoy digests in its top-level digest list (read back: the entries that are not the
+   digest of a disclosure) *)
+Definition decoy_oracle (input call : json) : option string :=
+  match Z_of_json (jget "decoy" input) with
+  | Some m => if (0 <? m)%Z then
+                let k := Z.of_nat (List.length (jlist (jget "decoys" (jget "readback" call)))) in
+                if ((1 <=? k) && (k <=? m))%Z then None else Some "the number of decoy digests is not between 1 and the configured maximum"
+              else None
+  | None => None end.
+
 (* C14: success exactly when the path list is a valid marking; never a panic *)
 Definition encode_oracle (expect : string) (o : json) : option string :=
   if String.eqb expect "any" then None   (* input outside the property's domain: only model = implementation is compared *)
@@ -135,7 +146,9 @@ Definition case_issue_call (input call : json) : verdict :=
   let nt := jbool (jget "nontrivial" input) in
   let v1 := decide (fun o => match encode_oracle (jstr_or_empty (jget "expect_issue" input)) o with
                               | Some w => Some w
-                              | None => if obs_is "ok" o then exp_oracle input call else None end) eo mo nt "Issuer::encode" in
+                              | None => if obs_is "ok" o then
+                                          match exp_oracle input call with Some w => Some w | None => decoy_oracle input call end
+                                        else None end) eo mo nt "Issuer::encode" in
   if obs_is "ok" eo then
     let token := jstr_or_empty (obs_val eo) in
     let O := oracles_of_readback rb in
